@@ -172,6 +172,72 @@ def tauleap_reaction_case(cls):
     return Case("%s/Apply_nevt-reaction-statement" % cls, run, functions=["%s::Apply_nevt" % cls], conc=False, max_paths=3000)
 
 
+def tauleap_reaction_effect_case(cls):
+    """Apply_nevt with no diffusion count: entry (cell i0, species j0) ends as pre + sum_r sto[j0,r] x count(i0,r) when not
+    chemostated and is unchanged otherwise: every species of the cell receives every reaction's change (then L-lin)"""
+    P = "C02/%s::Apply_nevt" % cls
+
+    def run(api):
+        prog = C11.program()
+        c = api.ctx
+        inv0 = dict(K.LOOP_INV)
+        I = K.make_interp(prog, c, "C02", loop_inv=inv0)
+        o = _obj(I, cls)
+        f = dict(o.fields)
+        S, R, M = f["n_species"], f["n_reactions"], f["n_meshes"]
+        i0, j0 = K._int(I, "i0", 0), K._int(I, "j0", 0)
+        c.assume(z3.And(i0 < M, j0 < S))
+        I.store_checks = {}
+        I.read_facts = dict(I.read_facts)
+        I.read_facts["mesh_nd"] = lambda I_, o_, fr, e, idx: I_.to_real(e) == 0        # no diffusion event in this step
+        x0 = f["mesh_x"].arr
+        e0 = i0 * S + j0
+        ch0 = z3.Select(f["mesh_chstt"].arr, e0) != 0
+        RS = z3.Function("applied_upto", z3.IntSort(), z3.RealSort())          # sum_{r'<r} sto[j0,r'] count(i0,r')
+        c.assume(RS(0) == 0)
+
+        def term(r):
+            return I.to_real(z3.Select(f["sto"].arr, j0 * R + r)) * I.to_real(z3.Select(f["mesh_nr"].arr, i0 * R + r))
+
+        def L(fr, nm):
+            return I.local_by_name(fr, nm)
+
+        def cur(fr):
+            return z3.Select(fr.this.fields["mesh_x"].arr, e0)
+        final = z3.If(ch0, z3.Select(x0, e0), z3.Select(x0, e0) + RS(R))
+
+        def inv_i(I_, fr, stage):
+            i = L(fr, "i")
+            return [fr.this.fields["mesh_x"].n == M * S, cur(fr) == z3.If(i > i0, final, z3.Select(x0, e0))]
+
+        def inv_r(I_, fr, stage):
+            i, r = L(fr, "i"), L(fr, "r")
+            if stage == "assume":
+                c.assume(z3.Implies(r >= 0, RS(r + 1) == RS(r) + term(r)))            # definition
+            mid = z3.If(ch0, z3.Select(x0, e0), z3.Select(x0, e0) + RS(r))
+            return [fr.this.fields["mesh_x"].n == M * S,
+                    cur(fr) == z3.If(i > i0, final, z3.If(i == i0, mid, z3.Select(x0, e0)))]
+
+        def inv_j(I_, fr, stage):
+            i, r, j = L(fr, "i"), L(fr, "r"), L(fr, "j")
+            if stage == "assume":
+                c.assume(z3.Implies(r >= 0, RS(r + 1) == RS(r) + term(r)))
+            mid = z3.If(ch0, z3.Select(x0, e0), z3.Select(x0, e0) + RS(r) + z3.If(j > j0, term(r), 0))
+            return [fr.this.fields["mesh_x"].n == M * S,
+                    cur(fr) == z3.If(i > i0, final, z3.If(i == i0, mid, z3.Select(x0, e0)))]
+
+        def inv_d(I_, fr, stage):
+            i = L(fr, "i")
+            return [fr.this.fields["mesh_x"].n == M * S, cur(fr) == z3.If(i >= i0, final, z3.Select(x0, e0))]
+        inv0.update({("Apply_nevt", 1): inv_i, ("Apply_nevt", 2): inv_r, ("Apply_nevt", 3): inv_j, ("Apply_nevt", 4): inv_d,
+                     ("Apply_nevt", 5): inv_d})
+        fn, _ = prog.method(cls, "Apply_nevt")
+        I.call(fn, o, [], fn, Frame("top"))
+        c.oblige(P + "/every-entry: + sum_r sto[s,r] x count(cell,r) unless chemostated (no diffusion count)", cur(Frame("x", o)) == final)
+
+    return Case("%s/Apply_nevt-reaction-effect" % cls, run, functions=["%s::Apply_nevt" % cls], conc=False, max_paths=3000)
+
+
 def drd_case(cls):
     P = "C02/%s::DiffusionRateDifference" % cls
 
@@ -528,7 +594,7 @@ if z3 is not None:
     for _c in ("Gillespie3D", "GillespieGraph"):
         CASES += [gillespie_diffusion_case(_c), C07.apply_reaction_case(_c, "C02")]
     for _c in ("TauLeap3D", "TauLeapGraph"):
-        CASES += [tauleap_diffusion_case(_c), tauleap_reaction_case(_c)]
+        CASES += [tauleap_diffusion_case(_c), tauleap_reaction_case(_c), tauleap_reaction_effect_case(_c)]
     for _c in ("Euler3D", "EulerGraph"):
         CASES += [drd_case(_c), compute_dxdt_case(_c), apply_dxdt_case(_c)]
     for _n in range(6):
